@@ -20,6 +20,7 @@ import (
 
 	"github.com/pingcap/kvproto/pkg/pdpb"
 	"github.com/tikv/pd/server/config"
+	"github.com/tikv/pd/server/election"
 	"github.com/tikv/pd/server/member"
 	"github.com/tikv/pd/server/tso"
 	"go.etcd.io/etcd/clientv3"
@@ -37,7 +38,7 @@ const (
 )
 
 type SOp struct {
-	K  string `json:"k"`            // join, extra, leave, leaveExtra, leader, resign, check, race
+	K  string `json:"k"`            // join, extra, leave, leaveExtra, leader, resign, check, race, alloc, checkFault
 	M  int    `json:"m"`            // member index (join/leave/leader/check/race) or extra index
 	DC int    `json:"dc,omitempty"` // dc name index
 	// race: stale leader M is parked inside its checker, leader moves to L, dc-location DC2 joins
@@ -47,6 +48,10 @@ type SOp struct {
 	DC2 int `json:"dc2,omitempty"`
 	// race variant: the member that put DC in use is removed again while M is stalled
 	LV bool `json:"lv,omitempty"`
+	// leader: the dc-location checkers every member starts after an election have not run yet
+	Late bool `json:"late,omitempty"`
+	// checkFault: the first etcd request about suffixes of M's checker fails: range | txn | lostack
+	Fail string `json:"fail,omitempty"`
 }
 
 type SCase struct {
@@ -76,9 +81,33 @@ func genSuffix(t *rapid.T) SCase {
 			}
 		}
 	}
+	fails := []string{"range", "txn", "lostack"}
 	n := rapid.IntRange(4, 24).Draw(t, "nops")
 	for i := 0; i < n; i++ {
-		switch rapid.IntRange(0, 15).Draw(t, "kind") {
+		switch rapid.IntRange(0, 21).Draw(t, "kind") {
+		case 16, 17:
+			// the PD leader runs the real campaign path of a local allocator (allocatorLeaderLoop) for a dc-location it knows
+			c.Ops = append(c.Ops, SOp{K: "alloc", DC: dc("dc")})
+		case 18:
+			c.Ops = append(c.Ops, SOp{K: "checkFault", M: mem("m"), Fail: rapid.SampledFrom(fails).Draw(t, "fail")})
+		case 19:
+			c.Ops = append(c.Ops, SOp{K: "leader", M: mem("m"), Late: true})
+		case 20:
+			// a follower that has looked at the dc-locations becomes PD leader and campaigns for a local allocator
+			// before its own post-election check has run
+			a := mem("a")
+			c.Ops = append(c.Ops, SOp{K: "leader", M: a},
+				SOp{K: "extra", M: rapid.IntRange(0, nExtras-1).Draw(t, "x"), DC: dc("dc")},
+				SOp{K: "check", M: (a + 1) % c.NM},
+				SOp{K: "leader", M: (a + 1) % c.NM, Late: true},
+				SOp{K: "alloc", DC: dc("adc")})
+		case 21:
+			// the PD leader's suffix assignment for a new dc-location hits an etcd fault, then it campaigns
+			a := mem("a")
+			c.Ops = append(c.Ops, SOp{K: "leader", M: a},
+				SOp{K: "extra", M: rapid.IntRange(0, nExtras-1).Draw(t, "x"), DC: dc("dc")},
+				SOp{K: "checkFault", M: a, Fail: rapid.SampledFrom(fails).Draw(t, "fail")},
+				SOp{K: "alloc", DC: dc("adc")})
 		case 0, 1, 2:
 			c.Ops = append(c.Ops, SOp{K: "join", M: mem("m"), DC: dc("dc")})
 		case 3, 4:
@@ -170,16 +199,18 @@ type snode struct {
 }
 
 type sworld struct {
-	f      *etcdfix.Fixture
-	sl     []*sslot
-	root   string
-	ctx    context.Context
-	cancel context.CancelFunc
-	nodes  []*snode
-	leader int               // model: index of the member holding PD leadership, -1 none
-	dcOf   map[uint64]string // model of the dc-location keys: member id -> dc
-	hist   map[string]int32  // every suffix ever seen in etcd, per dc
-	incon  bool
+	f                           *etcdfix.Fixture
+	sl                          []*sslot
+	root                        string
+	ctx                         context.Context
+	cancel                      context.CancelFunc
+	nodes                       []*snode
+	leader                      int               // model: index of the member holding PD leadership, -1 none
+	dcOf                        map[uint64]string // model of the dc-location keys: member id -> dc
+	hist                        map[string]int32  // every suffix ever seen in etcd, per dc
+	incon                       bool
+	allocs                      []*salloc
+	generated, elected, waiting int
 	// TSOUpdatePhysicalInterval of the members (also the pause between retries after a logical overflow)
 	updInterval time.Duration
 }
@@ -347,9 +378,43 @@ func (w *sworld) observe(step int, what string) error {
 				step, what, n.idx+1, b, n.maxReported, needBits(n.maxReported))
 		}
 	}
+	// every local allocator that leads its dc-location hands out a few timestamps (before etcd is read)
+	type gen struct {
+		a  *salloc
+		ts pdpb.Timestamp
+	}
+	var gens []gen
+	for _, a := range w.allocs {
+		if !(a.la.IsAllocatorLeader() && a.la.IsInitialize()) {
+			continue
+		}
+		for _, cnt := range []uint32{1, 1, 2} {
+			ts, err := w.nodes[a.node].am.HandleTSORequest(a.dc, cnt)
+			if err != nil {
+				break
+			}
+			gens = append(gens, gen{a, ts})
+		}
+	}
 	cur, err := w.etcdSuffixes()
 	if err != nil {
 		return fmt.Errorf("op %d (%s): %v", step, what, err)
+	}
+	for _, g := range gens {
+		sfx, ok := cur[g.a.dc]
+		if !ok || sfx <= 0 {
+			return fmt.Errorf("op %d (%s): the local allocator of %s on pd%d hands out timestamps (logical %d, %d suffix bits) but etcd holds no positive suffix for %s (%v)",
+				step, what, g.a.dc, g.a.node+1, g.ts.GetLogical(), g.ts.GetSuffixBits(), g.a.dc, cur)
+		}
+		b := g.ts.GetSuffixBits()
+		if 1<<b <= int64(sfx) {
+			return fmt.Errorf("op %d (%s): the local allocator of %s on pd%d reports %d suffix bits, too narrow for its own suffix %d", step, what, g.a.dc, g.a.node+1, b, sfx)
+		}
+		if low := g.ts.GetLogical() & (1<<b - 1); low != int64(sfx) {
+			return fmt.Errorf("op %d (%s): the local allocator of %s on pd%d handed out logical %d whose low %d bits are %d; the persisted suffix of %s is %d (0 is the global allocator's)",
+				step, what, g.a.dc, g.a.node+1, g.ts.GetLogical(), b, low, g.a.dc, sfx)
+		}
+		w.generated++
 	}
 	// persisted suffixes: never change, never disappear, > 0, pairwise distinct
 	for dc, s := range w.hist {
@@ -418,6 +483,7 @@ func runSuffix(c SCase) (vkit.Info, error) {
 		}
 		w.resign()
 		w.cancel()
+		w.waitLoopsGone()
 		quiesce()
 		f.DeleteRaw(w.root, true)
 	}()
@@ -509,7 +575,11 @@ func runSuffix(c SCase) (vkit.Info, error) {
 				leaderChanges++
 			}
 			hadLeader = true
-			// what the server does right after winning / noticing an election
+			// what the server does right after winning / noticing an election (Late: those goroutines have not run yet)
+			if op.Late {
+				info.Class("leader-before-its-first-check")
+				break
+			}
 			for _, n := range w.nodes {
 				n.am.ClusterDCLocationChecker()
 			}
@@ -524,6 +594,17 @@ func runSuffix(c SCase) (vkit.Info, error) {
 			if err := w.checkOne(step, n); err != nil {
 				return info, err
 			}
+		case "alloc":
+			if err := w.alloc(step, op, &info); err != nil {
+				return info, err
+			}
+			if w.incon {
+				info.Inconclusive = true
+				return info, nil
+			}
+		case "checkFault":
+			w.checkFault(w.nodes[m%c.NM], op.Fail)
+			info.Class("check-with-etcd-fault-" + op.Fail)
 		case "race":
 			ran, err := w.race(step, op, c.NM, mayJoin, joined, &info)
 			if w.incon {
@@ -539,7 +620,7 @@ func runSuffix(c SCase) (vkit.Info, error) {
 			}
 		}
 		// SetLocalTSOConfig is the only call here that leaves a background checker behind
-		if op.K == "join" && !quiesce() {
+		if (op.K == "join" || op.K == "alloc") && !quiesce() {
 			info.Inconclusive = true
 			return info, nil
 		}
@@ -561,6 +642,9 @@ func runSuffix(c SCase) (vkit.Info, error) {
 	info.ClassIf(leaves > 0, "leave")
 	info.ClassIf(races > 0, "stale-leader-race")
 	info.ClassIf(refused > 0, "refused")
+	info.ClassIf(w.elected > 0, "local-allocator-elected")
+	info.ClassIf(w.waiting > 0, "local-allocator-campaign-waits")
+	info.ClassIf(w.generated > 0, "local-allocator-generated")
 	info.NonTrivial = len(joined) >= 2 && len(w.hist) >= 2 && (leaderChanges > 0 || leaves > 0)
 	return info, nil
 }
@@ -732,4 +816,144 @@ func (w *sworld) race(step int, op SOp, nm int, mayJoin func(string) bool, joine
 	}
 	finish()
 	return !w.incon, nil
+}
+
+// ---------------------------------------------------------------- local allocators (real campaign path)
+
+type salloc struct {
+	node int
+	dc   string
+	la   *tso.LocalTSOAllocator
+}
+
+// loopStates counts the allocatorLeaderLoop goroutines and those of them that are parked: sleeping until the next
+// round (longSleep) or watching another member's allocator leadership.
+func loopStates() (total, parked int) {
+	stackMu.Lock()
+	defer stackMu.Unlock()
+	n := runtime.Stack(stackBuf, true)
+	for _, g := range bytes.Split(stackBuf[:n], []byte("\n\n")) {
+		if !bytes.Contains(g, []byte("AllocatorManager).allocatorLeaderLoop")) {
+			continue
+		}
+		total++
+		if bytes.Contains(g, []byte("tso.longSleep")) || bytes.Contains(g, []byte("Leadership).Watch")) {
+			parked++
+		}
+	}
+	return
+}
+
+func (w *sworld) waitLoopsGone() {
+	deadline := time.Now().Add(10 * time.Second)
+	for time.Now().Before(deadline) {
+		if t, _ := loopStates(); t == 0 {
+			return
+		}
+		time.Sleep(500 * time.Microsecond)
+	}
+}
+
+// waitLoops waits until every campaign loop of this case either leads (initialised and enabled) or is parked.
+func (w *sworld) waitLoops() bool {
+	deadline := time.Now().Add(10 * time.Second)
+	for time.Now().Before(deadline) {
+		leading := 0
+		for _, a := range w.allocs {
+			if a.la.IsAllocatorLeader() && a.la.IsInitialize() {
+				leading++
+			}
+		}
+		if _, parked := loopStates(); leading+parked >= len(w.allocs) {
+			return true
+		}
+		time.Sleep(300 * time.Microsecond)
+	}
+	return false
+}
+
+// alloc: the current PD leader sets up the local allocator of one of the dc-locations it knows, exactly as its
+// allocatorPatroller would, which starts the real allocatorLeaderLoop -> campaignAllocatorLeader -> Initialize(suffix).
+// Only the PD leader does it here (a follower would ask the leader over gRPC), and only while it leads no other local
+// allocator (collecting the maximum of its other allocators would go over gRPC as well).
+func (w *sworld) alloc(step int, op SOp, info *vkit.Info) error {
+	if w.leader < 0 {
+		info.Class("alloc-without-leader-skipped")
+		return nil
+	}
+	n := w.nodes[w.leader]
+	for _, a := range w.allocs {
+		if a.node == n.idx {
+			info.Class("alloc-second-on-member-skipped")
+			return nil
+		}
+	}
+	infos := n.am.GetClusterDCLocations()
+	if len(infos) == 0 {
+		info.Class("alloc-no-dc-known-skipped")
+		return nil
+	}
+	names := make([]string, 0, len(infos))
+	for dc := range infos {
+		names = append(names, dc)
+	}
+	sort.Strings(names)
+	dc := names[op.DC%len(names)]
+	ls := election.NewLeadership(n.mb.Client(), path.Join(w.root, dc), fmt.Sprintf("%s local allocator leader election", dc))
+	n.am.SetUpAllocator(w.ctx, dc, ls)
+	al, err := n.am.GetAllocator(dc)
+	if err != nil {
+		return fmt.Errorf("op %d: SetUpAllocator(%s) on pd%d left no allocator behind: %v", step, dc, n.idx+1, err)
+	}
+	la, _ := al.(*tso.LocalTSOAllocator)
+	if la == nil {
+		return nil
+	}
+	a := &salloc{node: n.idx, dc: dc, la: la}
+	w.allocs = append(w.allocs, a)
+	if !w.waitLoops() {
+		w.incon = true
+		return nil
+	}
+	if la.IsAllocatorLeader() && la.IsInitialize() {
+		w.elected++
+		if infos[dc].Suffix <= 0 {
+			info.Class("local-allocator-elected-while-leader-held-no-suffix")
+		}
+	} else {
+		w.waiting++
+	}
+	return nil
+}
+
+// checkFault runs the checker of one manager while the first etcd request that concerns the suffixes fails
+// (range: the read of the suffix map; txn: the create txn is not sent; lostack: it is applied but reported failed).
+func (w *sworld) checkFault(n *snode, kind string) {
+	pfx := path.Join(w.root, "local-tso-suffix")
+	var once sync.Once
+	w.sl[n.idx].hooks.Set(func(ev *etcdfix.Event) etcdfix.Action {
+		hit := false
+		switch {
+		case kind == "range" && ev.Method == "Range":
+			hit = len(ev.Keys) > 0 && strings.HasPrefix(ev.Keys[0], pfx)
+		case kind != "range" && ev.Method == "Txn":
+			for k := range ev.Puts {
+				hit = hit || strings.HasPrefix(k, pfx)
+			}
+		}
+		if !hit {
+			return etcdfix.Proceed
+		}
+		first := false
+		once.Do(func() { first = true })
+		if !first {
+			return etcdfix.Proceed
+		}
+		if kind == "lostack" {
+			return etcdfix.LostAck
+		}
+		return etcdfix.FailBefore
+	}, nil)
+	n.am.ClusterDCLocationChecker()
+	w.sl[n.idx].hooks.Set(nil, nil)
 }
